@@ -345,6 +345,8 @@ def ac_sampled_ops(ctx):
         kern2 = []
         _seg_ops(rng, "128", x, y, z, 8, _leaf_segments(rng, x, y, z, 8, 2)[3:], kern2)
         kern += kern2[:8]
+    # the mirror's table (pcdrv `leafTable`) ends at 6e7: segments beyond it cannot be answered by the model
+    kern = [o for o in kern if int(o.split()[-1]) <= 5 * 10 ** 7]
     return whole, kern, segvar
 
 
